@@ -10,4 +10,30 @@ theorem C53_other_keys (c : Cfg) (s : St) (rd : Nat → Nat) (k k' : Key) (h : k
     view (recordAndCheck c s k' rd).st k = view s k :=
   recordAndCheck_frame c s rd h hev
 
+/-- Jail, step level (partial: one call, not a whole history).  While the prison dictionary holds a
+    free time `ft` for `k`, a request of `k` whose (first) clock read is before `ft` is denied, for
+    ARBITRARY later reads, evicts nothing and leaves the record of `k` as it is. -/
+theorem C53_jail_partial (c : Cfg) (s : St) (k : Key) (rd : Nat → Nat) (ft : Nat)
+    (h : dfind s.prison k = some ft) (ht : rd 0 < ft) :
+    (recordAndCheck c s k rd).deny = true ∧ (recordAndCheck c s k rd).ev = [] ∧
+    dfind (recordAndCheck c s k rd).st.prison k = some ft ∧
+    (recordAndCheck c s k rd).st.access = s.access := by
+  unfold recordAndCheck shouldDeny
+  simp [h, ht, dfind]
+
+/-- After the free time (first clock read ≥ ft) the record is removed by the first `shouldDeny`:
+    the verdict is then the one of `recordAccess` on a state without a prison record for `k`. -/
+theorem C53_release_partial (c : Cfg) (s : St) (k : Key) (rd : Nat → Nat) (ft : Nat)
+    (h : dfind s.prison k = some ft) (ht : ft ≤ rd 0) :
+    (shouldDeny rd { access := s.access, prison := s.prison } k).1 = false ∧
+    dfind (shouldDeny rd { access := s.access, prison := s.prison } k).2.prison k = none := by
+  unfold shouldDeny
+  have : ¬ rd 0 < ft := by omega
+  simp [h, this, dfind, dfind_ddel_self]
+
+example : (recordAndCheck ⟨10, 5, 1, 4, 4⟩ ⟨[], [(7, 100)]⟩ 7 (fun _ => 50)).deny = true := by decide
+example : (recordAndCheck ⟨10, 5, 1, 4, 4⟩ ⟨[], [(7, 100)]⟩ 7 (fun _ => 100)).deny = false := by decide
+/-- threshold 1: second hit inside the window is jailed until start + cp + stay = 0 + 10 + 5 -/
+example : (recordAndCheck ⟨10, 5, 1, 4, 4⟩ ⟨[(7, ⟨1, 0⟩)], []⟩ 7 (fun _ => 3)).st.prison = [(7, 15)] := by decide
+
 end BfeVerif.C53
